@@ -38,6 +38,7 @@ func runCase(t *testing.T, run *core.Run, name string, idx int, rng *rand.Rand) 
 	}
 	ch := w.Ch
 	defer ch.Close()
+	ch.MidwayRecheck = idx%2 == 1 // the proposer builds its proposal several times per height
 	blocks := core.Pick(18, 50)
 	fail := func(kind string, h uint64, d map[string]any) {
 		d["case"], d["height"] = name, h
